@@ -141,6 +141,12 @@ impl Prop for Foreign {
                 }
             }
         }
+        // Iterator adaptors on the foreign file, with and without index
+        {
+            let expect: Vec<Geom> = m.recs.iter().map(|r| r.geom.clone()).collect();
+            adaptor_routes("foreign/noshx", || open_mem(&enc.shp, None), &expect, cmp_read).map_err(|(k, msg)| Fail::new(if k == "shape-differs" { "decode-differs" } else { &k }, msg))?;
+            adaptor_routes("foreign/shx", || open_mem(&enc.shp, Some(&enc.shx[..])), &expect, cmp_read).map_err(|(k, msg)| Fail::new(if k == "shape-differs" { "decode-differs" } else { &k }, msg))?;
+        }
         // the same file read from disk by path (BufReader<File>), for one model in eight
         if (n + m.trailing.len() + m.ty.code() as usize) % 8 == 0 || n >= 1000 {
             ctx.class("from_path-route");
@@ -393,6 +399,9 @@ impl Prop for IndexOnly {
             }
         }
         ensure!(r.read_nth_shape(n).is_none(), "nth-out-of-range", "read_nth_shape({}) returns something", n);
+        // Iterator adaptors follow the index too
+        adaptor_routes("indexed", || open_mem(&enc.shp, Some(&enc.shx[..])), &seq, |e, g| if e == g { Ok(()) } else { Err("differs from the plain iteration item".to_string()) })
+            .map_err(|(k, msg)| Fail::new(if k == "shape-differs" { "wrong-record" } else { &k }, msg))?;
         // sources that return fewer bytes than asked per read call must be followed the same way
         for chunk in [1usize, 3, 7] {
             let sr = vlib::libops::open_src(vlib::io::Src::short(enc.shp.clone(), vec![chunk]), Some(vlib::io::Src::short(enc.shx.clone(), vec![chunk])))
